@@ -163,3 +163,19 @@ pub fn s6(ctx: &Ctx) {
         ctx.nontrivial();
     }
 }
+
+/// S7: every attribute-group subset (coordinates x states x colour x intensity x row/column x
+/// returns x time stamp, with and without their flags), hooked capacity 2, 5 points
+pub fn s7(ctx: &Ctx) {
+    let coords = ctx.pick("coords", 3);
+    let mask = ctx.pick("groups", 1 << cat::N_GROUP_BITS);
+    if !cat::group_mask_valid(coords, mask) {
+        return;
+    }
+    let mut cl = cloud(cat::group_proto(coords, mask), 5, (coords * 1024 + mask) as u64);
+    cl.cap = Some(2);
+    let p = Program { guid: "g".into(), ops: vec![Op::Cloud(cl)], ..Default::default() };
+    if roundtrip(ctx, &p, P).is_some() {
+        ctx.nontrivial();
+    }
+}
